@@ -132,12 +132,19 @@ def program(E, cfg):
                 E.prove(E.eq(p0.y[k], pz.y[k]), "MRTS=0 gives exactly the non-adaptive ISI profile")
                 E.prove(E.le(pb.y[k], pa.y[k]), "raising MRTS never increases an ISI-profile value")
                 E.prove(hx.simplies(small, E.eq(pa.y[k], p0.y[k])), "MRTS below every ISI changes nothing (ISI)")
+        # scalar level: the distance is the average of the profile (value-independent identity
+        # for the Python route; C05/C12 for the single-pass .pyx kernel), so monotonicity and
+        # the MRTS=0 case follow from the piecewise statements above
         d0 = pyspike.isi_distance(a, b)
         da = pyspike.isi_distance(a, b, MRTS=m1)
-        db = pyspike.isi_distance(a, b, MRTS=m2)
-        if E.finite(d0) and E.finite(da) and E.finite(db):
+        if E.finite(d0) and E.finite(da):
+            T = te - ts
+            if cfg["backend"] == "py":
+                E.prove(E.eq_abs(d0 * T, hx.pwc_integral(list(p0.x), list(p0.y)), list(p0.y)),
+                        "ISI distance = average of its profile (MRTS omitted)")
+                E.prove(E.eq_abs(da * T, hx.pwc_integral(list(pa.x), list(pa.y)), list(pa.y)),
+                        "ISI distance = average of its profile (MRTS = m1)")
             E.prove(E.eq(pyspike.isi_distance(a, b, MRTS=0.0), d0), "MRTS=0 gives the non-adaptive ISI distance")
-            E.prove(E.le(db, da), "raising MRTS never increases the ISI distance")
     elif what == "spike":
         kw = {"RI": True} if cfg["ri"] else {}
         p0 = pyspike.spike_profile(a, b, **kw)
